@@ -10,6 +10,7 @@ import IcingaProofs.C20.MessageLemmas
 import IcingaProofs.C20.DictLemmas
 import IcingaProofs.C20.Utf8Lemmas
 import IcingaModel.C20.SpecText
+import IcingaModel.C20.Conn
 import IcingaProofs.Gen.Limits
 
 namespace Icinga.C20
@@ -237,6 +238,155 @@ theorem tls_model_meets_spec (max : Option Nat) (bs : Bytes) :
         | false =>
           obtain ⟨tail, _, hm⟩ := header n after hsh hw
           rw [hm] at hout; simp at hout
+
+/-- The header loop runs into the end of the stream only on a (short) run of digits without a leading zero before another digit. -/
+theorem hdrLoop_eof : ∀ (bs : Bytes) (rb len : Nat) (lz : Bool), rb ≤ 9 → hdrLoop rb len lz bs = .eof →
+    (∀ b ∈ bs, isDigit b = true) ∧ rb + bs.length ≤ 9 ∧ (lz = true → bs = []) ∧
+      (rb = 0 → ∀ a b r, bs = a :: b :: r → (a == 48) = false) := by
+  intro bs
+  induction bs with
+  | nil => intro rb len lz hrb _; exact ⟨by simp, by simpa using hrb, fun _ => rfl, fun _ a b r h => by simp at h⟩
+  | cons x xs ih =>
+    intro rb len lz hrb h
+    unfold hdrLoop at h
+    by_cases hd : isDigit x = true
+    · simp only [hd, if_true] at h
+      by_cases h9 : (rb == 9) = true
+      · simp [h9] at h
+      · simp only [h9, Bool.false_eq_true, if_false] at h
+        by_cases hlz : lz = true
+        · simp [hlz] at h
+        · simp only [hlz, Bool.false_eq_true, if_false] at h
+          have hrb' : rb + 1 ≤ 9 := by simp at h9; omega
+          obtain ⟨i1, i2, i3, _⟩ := ih (rb + 1) _ _ hrb' h
+          refine ⟨?_, by simp; omega, fun hh => absurd hh hlz, ?_⟩
+          · intro b hb
+            rcases List.mem_cons.mp hb with hb | hb
+            · rw [hb]; exact hd
+            · exact i1 b hb
+          · intro hrb0 a b r he
+            simp only [List.cons.injEq] at he
+            obtain ⟨hax, hxs⟩ := he
+            subst hax
+            cases h48 : (x == 48) with
+            | false => rfl
+            | true =>
+              have : xs = [] := i3 (by simp [hrb0, h48])
+              rw [this] at hxs; simp at hxs
+    · simp only [hd, Bool.false_eq_true, if_false] at h
+      by_cases hc : (x == colon) = true
+      · simp only [hc, if_true] at h
+        by_cases h0 : (rb == 0) = true <;> simp [h0] at h
+      · simp [hc] at h
+
+/-- No leading zero before another digit in a canonical length field. -/
+theorem natDigits_no_leading_zero (n : Nat) : ∀ a b r, natDigits n = a :: b :: r → (a == 48) = false := by
+  intro a b r h
+  by_cases h0 : n = 0
+  · subst h0; rw [natDigits_zero] at h; simp at h
+  · obtain ⟨d, ds, he, hd, hv⟩ := natDigits_head_nonzero (by omega : 1 ≤ n)
+    rw [he] at h
+    simp only [List.cons.injEq] at h
+    rw [← h.1]
+    cases h48 : (d == 48) with
+    | false => rfl
+    | true => have := (eq48_iff_digitVal hd).mp h48; omega
+
+/-- A stream that starts with a canonical header within the limit, with the terminator (if already there) a ',', does not
+    visibly violate the format. -/
+theorem specViolation_header (max : Option Nat) (n : Nat) (hn : n < 10 ^ 9) (hw : withinLimit max n = true) (tail : Bytes)
+    (ht : ∀ t r, tail.drop n = t :: r → t = comma) :
+    specViolation max (natDigits n ++ colon :: tail) = false := by
+  have hlen := (natDigits_length_le n 9 (by omega)).mpr hn
+  have hnz := natDigits_no_leading_zero n
+  have hne := natDigits_ne_nil n
+  unfold specViolation
+  simp only
+  rw [takeWhile_natDigits, digitsVal_natDigits]
+  have hdrop : List.drop (natDigits n).length (natDigits n ++ colon :: tail) = colon :: tail := by simp
+  rw [hdrop]
+  have hlz : zeroThenDigit (natDigits n) = false := by
+    cases hnd : natDigits n with
+    | nil => rfl
+    | cons a r => cases r with
+      | nil => rfl
+      | cons b r' => exact hnz a b r' hnd
+  have h9 : decide ((natDigits n).length > 9) = false := by simp; omega
+  have hemp : (natDigits n).isEmpty = false := by cases hnd : natDigits n <;> simp_all
+  simp only [hlz, h9, Bool.or_self, Bool.false_eq_true, if_false, bne_self_eq_false, hemp, hw, Bool.not_true]
+  cases hd : tail.drop n with
+  | nil => rfl
+  | cons t r => simp [ht t r hd]
+
+/-- **tls_violation_rejected** (the positive clause of the statement).  On every stream that visibly violates the frame
+    format — bad length field, wrong separator, declared length over the limit, wrong terminator — the TLS reader answers
+    with an error: it neither returns a payload nor runs on to the end of the stream.  Hence `tlsRejectSpec` holds of the
+    model on every input. -/
+theorem tls_violation_rejected (max : Option Nat) (bs : Bytes) :
+    (specViolation max bs = true → ∃ e rest, (nsReadTls max bs).out = .error e rest) ∧
+    tlsRejectSpec max bs (obsOfTls (nsReadTls max bs)) = none := by
+  have main : specViolation max bs = true → ∃ e rest, (nsReadTls max bs).out = .error e rest := by
+    intro hv
+    cases hout : (nsReadTls max bs).out with
+    | error e rest => exact ⟨e, rest, rfl⟩
+    | ok p rest =>
+      -- a payload is returned only for a canonical frame within the limit: no violation there
+      obtain ⟨hbs, hn, hlim, _⟩ := netstring_accepts_only_canonical max bs p rest _ (by rw [← hout])
+      have he : bs = natDigits p.length ++ colon :: (p ++ comma :: rest) := by rw [hbs]; simp [nsEncode]
+      have := specViolation_header max p.length hn (by rw [withinLimit_iff]; simp [hlim]) (p ++ comma :: rest)
+        (by intro t r h; simp at h; exact h.1.symm)
+      rw [← he, hv] at this; cases this
+    | eof =>
+      exfalso
+      unfold nsReadTls at hout
+      cases hh : hdrLoop 0 0 false bs with
+      | eof =>
+        obtain ⟨hall, hlen, _, hlz⟩ := hdrLoop_eof bs 0 0 false (by omega) hh
+        have htw := takeWhile_all isDigit bs hall
+        unfold specViolation at hv
+        simp only [htw, List.drop_length] at hv
+        have hlz' : zeroThenDigit bs = false := by
+          cases bs with
+          | nil => rfl
+          | cons a r => cases r with
+            | nil => rfl
+            | cons b r' => exact hlz rfl a b r' rfl
+        have h9 : decide (bs.length > 9) = false := by simp; omega
+        simp [hlz', h9] at hv
+      | error e r => simp [hh] at hout
+      | done len r =>
+        obtain ⟨hbs, hlen⟩ := hdrLoop_canonical bs len r hh
+        simp only [hh] at hout
+        by_cases hm : tlsLimitExceeded max len = true
+        · simp [hm] at hout
+        · have hw : withinLimit max len = true := by rw [withinLimit_iff]; simp [hm]
+          have hdrop : r.drop len = [] := by
+            simp only [hm, Bool.false_eq_true, if_false] at hout
+            by_cases hl : r.length < len
+            · exact List.drop_eq_nil_of_le (by omega)
+            · simp only [hl, if_false] at hout
+              cases hd : r.drop len with
+              | nil => rfl
+              | cons t r' =>
+                simp only [hd] at hout
+                by_cases hc : (t == comma) = true <;> simp [hc] at hout
+          have := specViolation_header max len hlen hw r (by intro t r' h; rw [hdrop] at h; cases h)
+          rw [← hbs, hv] at this; cases this
+  refine ⟨main, ?_⟩
+  unfold tlsRejectSpec
+  cases hv : specViolation max bs with
+  | false => rfl
+  | true =>
+    obtain ⟨e, rest, he⟩ := main hv
+    simp [obsOfTls, he]
+
+-- a wrong terminator, a leading zero, an over-limit header answered with end-of-stream or a payload: rejected by the specification
+example : tlsRejectSpec none [50, 58, 104, 105, 59] .eof = some .tlsViolationNotRejected := by decide
+example : tlsRejectSpec none [48, 50, 58, 104, 105, 44] .eof = some .tlsViolationNotRejected := by decide
+example : tlsRejectSpec (some 1) [50, 58] .eof = some .tlsViolationNotRejected := by decide
+example : tlsRejectSpec none [48, 48, 58, 44] (.ok [] 0) = some .tlsViolationNotRejected := by decide
+example : tlsRejectSpec none [50, 58, 104] .eof = none := by decide
+example : tlsRejectSpec none [50, 58, 104, 105, 59] (.err 0) = none := by decide
 
 -- the specification is not vacuous: it rejects wrong observations
 example : tlsSpec none [48, 50, 58, 104, 105, 44] (.ok [104, 105] 0) = some .tlsOnlyCanonical := by decide
@@ -589,6 +739,265 @@ example : obsOfMsg (decodeMessage intCodec (asciiBytes "{")) = .rejected := by d
 example : obsOfMsg (decodeMessage intCodec (asciiBytes "{}")) = .dict := by decide +kernel
 example : messageSpec (asciiBytes "null") .null = some .messageOnlyObjects := by decide
 example : messageSpec (asciiBytes "[]") .dict = some .messageNotObjectText := by decide
+
+/-! ## A started connection: limit selection and the receive loop (IcingaModel/C20/Conn.lean) -/
+
+/-- **unauth_limit_selected.**  The limit the connection passes to the reader: 1 MiB for every peer that is not
+    authenticated — whatever name it claims, also the name of a configured Endpoint — and for authenticated peers
+    without Endpoint object; none only for an authenticated peer with Endpoint object. -/
+theorem unauth_limit_selected :
+    (∀ ep, limitFor false ep = some 1048576) ∧ limitFor true false = some 1048576 ∧ limitFor true true = none := by
+  refine ⟨fun ep => by cases ep <;> rfl, rfl, rfl⟩
+
+/-- One iteration that hands a message to the handlers consumed exactly one canonical frame within the limit. -/
+theorem recv_message_frame {N : Type} (c : NumCodec N) (max : Option Nat) (bs : Bytes)
+    (kvs : List (List Char × JValue N)) (rest : Bytes) (h : recvMessage c max bs = .message kvs rest) :
+    ∃ p, bs = nsEncode p ++ rest ∧ p.length < 10 ^ 9 ∧ tlsLimitExceeded max p.length = false ∧ decodeMessage c p = .ok kvs := by
+  unfold recvMessage at h
+  cases ho : (nsReadTls max bs).out with
+  | eof => simp [ho] at h
+  | error e r => simp [ho] at h
+  | ok p r =>
+    simp only [ho] at h
+    cases hm : decodeMessage c p with
+    | error e => simp [hm] at h
+    | ok k =>
+      simp only [hm, RecvOutcome.message.injEq] at h
+      obtain ⟨hk, hr⟩ := h
+      subst hk; subst hr
+      have hc := netstring_accepts_only_canonical max bs p r (nsReadTls max bs).alloc (by rw [← ho])
+      exact ⟨p, hc.1, hc.2.1, hc.2.2.1, hm⟩
+
+/-- A canonical frame within the limit whose payload is a JSON object is handed on, with the rest of the stream untouched. -/
+theorem recv_frame {N : Type} (c : NumCodec N) (max : Option Nat) (p rest : Bytes) (hn : p.length < 10 ^ 9)
+    (hmax : tlsLimitExceeded max p.length = false) (kvs : List (List Char × JValue N)) (hd : decodeMessage c p = .ok kvs) :
+    recvMessage c max (nsEncode p ++ rest) = .message kvs rest := by
+  unfold recvMessage
+  rw [netstring_roundtrip max p rest hn hmax]
+  simp [hd]
+
+/-- **send_recv.**  Sender and receiver composed: a dictionary (any keys and values, nesting within the limit) that the
+    sender encodes with JsonEncode and frames with WriteStringToStream is handed to the receiver's handlers as exactly
+    that dictionary, with the rest of the stream untouched — for every lawful number codec, every limit the encoded
+    message is within, whatever follows in the stream. -/
+theorem send_recv {N : Type} (c : NumCodec N) (hc : c.Lawful) (max : Option Nat) (kvs : List (List Char × JValue N))
+    (rest : Bytes) (hd : depth (.obj kvs : JValue N) ≤ jsonMaxNestingDepth)
+    (hn : (jsonEncode c (.obj kvs)).length < 10 ^ 9)
+    (hmax : tlsLimitExceeded max (jsonEncode c (.obj kvs)).length = false) :
+    recvMessage c max (nsEncode (jsonEncode c (.obj kvs)) ++ rest) = .message kvs rest :=
+  recv_frame c max _ rest hn hmax kvs (by simpa using decode_message_roundtrip c hc (.obj kvs) hd)
+
+/-- A frame that declares more than the limit never becomes a message. -/
+theorem recv_over_limit {N : Type} (c : NumCodec N) (m : Nat) (q rest : Bytes) (hq : m < q.length) (hn : q.length < 10 ^ 9) :
+    ∀ kvs r, recvMessage c (some m) (nsEncode q ++ rest) ≠ .message kvs r := by
+  have he : nsEncode q ++ rest = natDigits q.length ++ colon :: (q ++ comma :: rest) := by simp [nsEncode]
+  intro kvs r
+  unfold recvMessage
+  rw [he, limit_before_payload m q.length _ hq hn]
+  simp
+
+/-- Fuel beyond the length of the stream does not matter. -/
+theorem connLoop_fuel {N : Type} (c : NumCodec N) (max : Option Nat) :
+    ∀ (f1 f2 : Nat) (bs : Bytes), bs.length < f1 → bs.length < f2 → connLoop c max f1 bs = connLoop c max f2 bs := by
+  intro f1
+  induction f1 with
+  | zero => intro f2 bs h; omega
+  | succ n ih =>
+    intro f2 bs h1 h2
+    cases f2 with
+    | zero => omega
+    | succ m =>
+      unfold connLoop
+      cases hr : recvMessage c max bs with
+      | message kvs rest =>
+        obtain ⟨p, hbs, _, _, _⟩ := recv_message_frame c max bs kvs rest hr
+        have hl := nsEncode_length_ge p
+        have : rest.length + 3 ≤ bs.length := by rw [hbs]; simp; omega
+        simp only
+        rw [ih m rest (by omega) (by omega)]
+      | rejected e r => rfl
+      | frameError e r => rfl
+      | eof => rfl
+
+/-- **conn_delivers_only_within_limit.**  On ANY byte stream, whatever the receive loop hands to the handlers was sent
+    as a canonical frame, behind nothing but canonical frames, with a payload within the connection's limit that
+    decodes to exactly that JSON object. -/
+theorem conn_delivers_only_within_limit {N : Type} (c : NumCodec N) (max : Option Nat) :
+    ∀ (fuel : Nat) (bs : Bytes) (kvs : List (List Char × JValue N)), kvs ∈ connLoop c max fuel bs →
+      ∃ ps p rest, bs = nsEncodeAll ps ++ (nsEncode p ++ rest) ∧ tlsLimitExceeded max p.length = false ∧
+        jsonDecodeL c p = some (.obj kvs) := by
+  intro fuel
+  induction fuel with
+  | zero => intro bs kvs h; simp [connLoop] at h
+  | succ n ih =>
+    intro bs kvs h
+    unfold connLoop at h
+    cases hr : recvMessage c max bs with
+    | message k rest =>
+      simp only [hr, List.mem_cons] at h
+      obtain ⟨p, hbs, _, hlim, hd⟩ := recv_message_frame c max bs k rest hr
+      rcases h with h | h
+      · subst h
+        exact ⟨[], p, rest, by simpa [nsEncodeAll] using hbs, hlim, ((decode_message_only_objects c p).1 kvs).mp hd⟩
+      · obtain ⟨ps, p', rest', hr', hl', hd'⟩ := ih rest kvs h
+        exact ⟨p :: ps, p', rest', by rw [hbs, hr']; simp [nsEncodeAll], hl', hd'⟩
+    | rejected e r => simp [hr] at h
+    | frameError e r => simp [hr] at h
+    | eof => simp [hr] at h
+
+/-- **unauth_peer_never_over_1MiB.**  The statement's clause as one sentence about the connection: for a peer that is not
+    authenticated — with ANY identity, any bytes — every message that reaches the handlers came in a frame of at most
+    1048576 payload bytes. -/
+theorem unauth_peer_never_over_1MiB {N : Type} (c : NumCodec N) (ep : Bool) (bs : Bytes)
+    (kvs : List (List Char × JValue N)) (h : kvs ∈ connRecv c false ep bs) :
+    ∃ ps p rest, bs = nsEncodeAll ps ++ (nsEncode p ++ rest) ∧ p.length ≤ 1048576 ∧ jsonDecodeL c p = some (.obj kvs) := by
+  obtain ⟨ps, p, rest, hbs, hl, hd⟩ := conn_delivers_only_within_limit c _ _ bs kvs h
+  refine ⟨ps, p, rest, hbs, ?_, hd⟩
+  rw [unauth_limit_selected.1 ep] at hl
+  simp [tlsLimitExceeded] at hl
+  omega
+
+-- the receive loop on concrete bytes: two messages, then a frame that violates the format ends the connection — the
+-- message behind it never reaches a handler; `null` and an over-limit header end it as well
+example : (connRecv intCodec false true (asciiBytes "2:{},7:{\"a\":1},00:,2:{},")).map (·.map (·.1)) = [[], ["a".toList]] := by decide +kernel
+example : (connRecv intCodec true true (asciiBytes "2:{},4:null,2:{},")).map (·.map (·.1)) = [[]] := by decide +kernel
+example : (connRecv intCodec false true (asciiBytes "2:{},1048577:{}")).map (·.map (·.1)) = [[]] := by decide +kernel
+example : limitFor false true = some 1048576 := rfl
+
+/-- The receive loop against the frames the peer sent: the ids of the frames up to the first one over the limit, then
+    (if none was) whatever the tail yields. -/
+theorem connLoop_expected {N : Type} (c : NumCodec N) (idOf : List (List Char × JValue N) → Option Nat)
+    (limited : Bool) (tail : Bytes) :
+    ∀ (frames : List ConnFrame) (fuel : Nat), (connStream frames tail).length < fuel →
+      (∀ f ∈ frames, f.payload.length < 10 ^ 9 ∧ ∃ kvs, decodeMessage c f.payload = .ok kvs ∧ idOf kvs = some f.id) →
+      (connLoop c (if limited then some unauthLimit else none) fuel (connStream frames tail)).filterMap idOf =
+        (connExpected limited frames).1 ++
+          (if (connExpected limited frames).2 then []
+           else (connLoop c (if limited then some unauthLimit else none) fuel tail).filterMap idOf) := by
+  intro frames
+  induction frames with
+  | nil => intro fuel _ _; simp [connStream, nsEncodeAll, connExpected]
+  | cons f fs ih =>
+    intro fuel hfuel hf
+    have hs : connStream (f :: fs) tail = nsEncode f.payload ++ connStream fs tail := by
+      simp [connStream, nsEncodeAll]
+    obtain ⟨hn, kvs, hd, hid⟩ := hf f (by simp)
+    have hl3 := nsEncode_length_ge f.payload
+    cases fuel with
+    | zero => omega
+    | succ n =>
+      have hlen : (connStream fs tail).length < n := by rw [hs] at hfuel; simp at hfuel; omega
+      have htl : tail.length < n := by
+        have : tail.length ≤ (connStream fs tail).length := by simp [connStream]
+        omega
+      by_cases hover : (limited && decide (unauthLimit < f.payload.length)) = true
+      · -- the frame is over the limit that applies: nothing from here on
+        simp only [Bool.and_eq_true, decide_eq_true_eq] at hover
+        obtain ⟨hlim, hgt⟩ := hover
+        subst hlim
+        have hne := recv_over_limit c unauthLimit f.payload (connStream fs tail) hgt hn
+        have : connLoop c (some unauthLimit) (n + 1) (connStream (f :: fs) tail) = [] := by
+          unfold connLoop
+          rw [hs]
+          cases hr : recvMessage c (some unauthLimit) (nsEncode f.payload ++ connStream fs tail) with
+          | message k r => exact absurd hr (hne k r)
+          | rejected e r => rfl
+          | frameError e r => rfl
+          | eof => rfl
+        simp [this, connExpected, hgt]
+      · have hmax : tlsLimitExceeded (if limited then some unauthLimit else none) f.payload.length = false := by
+          cases limited with
+          | false => simp [tlsLimitExceeded]
+          | true => simp at hover; simp [tlsLimitExceeded]; omega
+        have hrecv := recv_frame c (if limited then some unauthLimit else none) f.payload (connStream fs tail) hn hmax kvs hd
+        have hstep : connLoop c (if limited then some unauthLimit else none) (n + 1) (connStream (f :: fs) tail) =
+            kvs :: connLoop c (if limited then some unauthLimit else none) n (connStream fs tail) := by
+          conv => lhs; unfold connLoop
+          rw [hs, hrecv]
+        have hih := ih n hlen (fun g hg => hf g (by simp [hg]))
+        have hexp : connExpected limited (f :: fs) = (f.id :: (connExpected limited fs).1, (connExpected limited fs).2) := by
+          conv => lhs; unfold connExpected
+          simp [hover]
+        rw [hstep, hexp]
+        simp only [List.filterMap_cons, hid, List.cons_append, List.cons.injEq, true_and]
+        rw [hih, connLoop_fuel c _ n (n + 1) tail htl (by omega)]
+
+/-- **conn_model_meets_spec.**  The connection half of the property as one statement: for every peer (authenticated or
+    not, with or without Endpoint object), every sequence of messages sent as canonical frames (each a JSON object the
+    handler recognises by an id; any sizes below 10^9, also far over 1 MiB) followed by ANY tail bytes, what the model of
+    constructor + receive loop delivers satisfies the executable specification `connSpec` that the driver evaluates on the
+    implementation's observations — in particular: nothing from or behind a frame of more than 1 MiB reaches a handler
+    when the peer is not authenticated. -/
+theorem conn_model_meets_spec {N : Type} (c : NumCodec N) (idOf : List (List Char × JValue N) → Option Nat)
+    (auth ep : Bool) (frames : List ConnFrame) (tail : Bytes)
+    (hf : ∀ f ∈ frames, f.payload.length < 10 ^ 9 ∧ ∃ kvs, decodeMessage c f.payload = .ok kvs ∧ idOf kvs = some f.id) :
+    connSpec auth ep frames tail ((connRecv c auth ep (connStream frames tail)).filterMap idOf) true = none := by
+  -- the model's deliveries under the reading of the limit the model selects
+  have key : ∀ limited : Bool, limitFor auth ep = (if limited then some unauthLimit else none) →
+      connFits limited frames tail ((connRecv c auth ep (connStream frames tail)).filterMap idOf) = true := by
+    intro limited hl
+    unfold connRecv
+    rw [hl, connLoop_expected c idOf limited tail frames _ (by omega) hf]
+    unfold connFits
+    cases hst : (connExpected limited frames).2 with
+    | true => simp [hst]
+    | false =>
+      cases hsf : specFrame tail with
+      | none =>
+        -- nothing is delivered out of a tail that is not a frame
+        have : connLoop c (if limited then some unauthLimit else none) ((connStream frames tail).length + 1) tail = [] := by
+          unfold connLoop
+          cases hr : recvMessage c (if limited then some unauthLimit else none) tail with
+          | message k r =>
+            obtain ⟨p, hbs, hn, _, _⟩ := recv_message_frame c _ tail k r hr
+            rw [hbs, specFrame_complete p r hn] at hsf
+            simp at hsf
+          | rejected e r => rfl
+          | frameError e r => rfl
+          | eof => rfl
+        simp [hst, this]
+      | some pr => simp [hst, List.isPrefixOf_iff_prefix]
+  unfold connSpec
+  cases auth with
+  | false =>
+    have := key true (by cases ep <;> rfl)
+    simp [this]
+  | true =>
+    cases ep with
+    | true => have := key false rfl; simp [this]
+    | false => have := key true rfl; simp [this]
+
+-- the specification is not vacuous: an over-limit frame delivered to an unauthenticated peer, a lost frame, a frame out of a malformed tail
+example (p : Bytes) (h : 1048576 < p.length) :
+    connSpec false true [⟨0, p⟩, ⟨1, [123, 125]⟩] [] [0, 1] true = some .connUnauthLimit := by
+  simp [connSpec, connFits, connExpected, unauthLimit, specFrame, h]
+example (p : Bytes) (h : 1048576 < p.length) : connSpec false true [⟨0, p⟩, ⟨1, [123, 125]⟩] [] [] true = none := by
+  simp [connSpec, connFits, connExpected, unauthLimit, specFrame, h]
+example (p : Bytes) (h : 1048576 < p.length) : connSpec true true [⟨0, p⟩, ⟨1, [123, 125]⟩] [] [0, 1] true = none := by
+  simp [connSpec, connFits, connExpected, unauthLimit, specFrame, h]
+example : connSpec true true [⟨0, [123, 125]⟩, ⟨1, [123, 125]⟩] [] [0] true = some .connFrames := by decide +kernel
+example : connSpec false false [⟨0, [123, 125]⟩] [48, 48, 58, 44] [0, 7] true = some .connFrames := by decide +kernel
+example : connSpec false false [⟨0, [123, 125]⟩] [] [0] false = some .connEnds := by decide +kernel
+
+/-! ## The state file: one record through ConfigObject::RestoreObject -/
+
+/-- **restore_record_safe.**  Every record of a state file — any bytes — is handled or refused with an error (the record
+    is skipped), never a crash; and exactly the records that decode to a JSON object (nested no deeper than the limit) are
+    handled.  (Full statement; before the repair of finding F-C20b, commit 7e39c42, the record `null` was a null-pointer
+    dereference and this theorem was carried as `_partial` + `_counterexample`.) -/
+theorem restore_record_safe {N : Type} (c : NumCodec N) (p : Bytes) :
+    restoreRecord c p ≠ .crash ∧ (restoreRecord c p = .handled ↔ ∃ kvs, jsonDecodeL c p = some (.obj kvs)) := by
+  unfold restoreRecord
+  cases hd : jsonDecodeL c p with
+  | none => simp
+  | some v => cases v <;> simp
+
+example : restoreRecord intCodec (asciiBytes "null") = .error := by decide +kernel
+example : restoreRecord intCodec (asciiBytes "[]") = .error := by decide +kernel
+example : restoreRecord intCodec (asciiBytes "{}") = .handled := by decide +kernel
+example : stateSpec (asciiBytes "{}") 3 (asciiBytes "2:{},4:null,") (.ok 1) = some .stateRestore := by decide +kernel
+example : stateSpec (asciiBytes "{}") 3 (asciiBytes "2:{},4:null,") .err = some .stateRestore := by decide +kernel
+example : stateSpec (asciiBytes "{}") 3 (asciiBytes "2:{},4:null,") (.ok 3) = none := by decide +kernel
 
 /-! ## Hostile input, all readers -/
 
